@@ -296,7 +296,12 @@ func (s *TvSchema) tvRecToJSON(d *TvDecl, v reflect.Value) (any, error) {
 			if !set && tvIsZero(g) {
 				continue
 			}
-			// bit clear but a value is there: shown, so that the specification sees it
+			// bit clear but a value is there: shown, so that the specification sees it.
+			// bit set but the code left a nil pointer: the field is simply not there — shown as absent, so that
+			// the specification (which requires it) rejects the value instead of the harness giving up
+			if g.Kind() == reflect.Pointer && g.IsNil() {
+				continue
+			}
 		}
 		x, err := s.TvToJSON(f.Ty, g)
 		if err != nil {
